@@ -432,7 +432,9 @@ class H2Protocol:
                 return  # Already closed or reset
             await self._flush()
             await buffer.close()
-            del self.stream_buffers[stream_id]
+            # The send task may have run whilst flushing and already
+            # have discarded the buffer of the (now reset) stream.
+            self.stream_buffers.pop(stream_id, None)
             try:
                 self.priority.remove_stream(stream_id)
             except priority.MissingStreamError:
